@@ -159,6 +159,7 @@ class C02(SolverSuite):
         actors = {"S0": spec}
         ops = G.sprinkle_evq(rng, ops, "S0", spec)
         ops = G.sprinkle_clone(rng, ops, "S0")
+        ops = G.sprinkle_misc(rng, ops, "S0")
         ops = _maybe_company(rng, actors, ops)
         if rng.random() < 0.06 and "params_obj" not in spec:
             # build, then tune, then solve: r is assigned on the parameters object before the first iteration
@@ -368,9 +369,16 @@ class C04(SolverSuite):
         pre = rng.choice([0, rng.randint(0, L), rng.randint(0, L)])
         ops = G.gen_single_ops(rng, "S0", pre, with_solve=rng.random() < 0.8, results_prob=0.4,
                                after_solve_iters=rng.choice([0, rng.randint(1, 8)]), refine_ops=rng.random() < 0.2)
+        if rng.random() < 0.1:
+            # refine, search on, refine again (a short second refinement)
+            ops.append({"a": "S0", "op": "refine", "n": rng.choice([5, 25, 50])})
+            for k in G.gen_batches(rng, rng.randint(1, 20)):
+                ops.append({"a": "S0", "op": "iterate", "k": k})
+            ops += [{"a": "S0", "op": "refine", "n": rng.choice([0, 1, 1, 5])}, {"a": "S0", "op": "results"}]
         actors = {"S0": spec}
         ops = G.sprinkle_evq(rng, ops, "S0", spec)
         ops = G.sprinkle_clone(rng, ops, "S0")
+        ops = G.sprinkle_misc(rng, ops, "S0")
         ops = _maybe_company(rng, actors, ops)
         plan = G.base_plan(self.prop, run_seed, actors, ops, clock=G.gen_clock(rng))
         if "S1" in actors and rng.random() < 0.5:
@@ -437,6 +445,18 @@ class C05(SolverSuite):
             ops.append({"a": "S0", "op": rng.choice(["refine", "solve"]), "n": rng.choice([-1, 5, 50])})
             ops.append({"a": "S0", "op": "results"})
         ops = G.sprinkle_evq(rng, ops, "S0", spec)
+        if rng.random() < 0.1 and spec.get("lower") is not None:
+            # company: a second solver on the SAME box with another objective (a multiple of S0's, so that the two searches visit
+            # the same points), both refining
+            s1 = copy.deepcopy(spec)
+            s1["objective"] = {"family": "scaled", "N": spec["objective"]["N"], "inner": spec["objective"], "k": rng.choice([4.0, 0.25, 2.0])}
+            s1["params"]["refineSolution"] = True
+            spec["params"]["refineSolution"] = True
+            ops1 = [{"a": "S1", "op": "create"}, {"a": "S1", "op": "solve"}, {"a": "S1", "op": "results"}]
+            ops = (ops1 + ops) if rng.random() < 0.5 else interleave(rng, [ops, ops1])
+            if not any(o["op"] == "solve" for o in ops if o["a"] == "S0"):
+                ops.append({"a": "S0", "op": "solve"})
+            return G.base_plan(self.prop, run_seed, {"S0": spec, "S1": s1}, ops, clock=G.gen_clock(rng))
         if rng.random() < 0.1:
             return gen_self_reads(rng, G.base_plan(self.prop, run_seed, {"S0": spec}, ops, clock=G.gen_clock(rng)), prob=1.0)
         return transient_fault_then_continue(rng, G.base_plan(self.prop, run_seed, {"S0": spec}, ops, clock=G.gen_clock(rng)), prob=0.15)
@@ -472,6 +492,7 @@ class C06(SolverSuite):
         actors = {"S0": spec}
         ops = G.sprinkle_evq(rng, ops, "S0", spec)
         ops = G.sprinkle_clone(rng, ops, "S0")
+        ops = G.sprinkle_misc(rng, ops, "S0")
         ops = _maybe_company(rng, actors, ops)
         plan = G.base_plan(self.prop, run_seed, actors, ops, clock=G.gen_clock(rng))
         if "S1" in actors and rng.random() < 0.5:
